@@ -284,6 +284,22 @@ func sioHistory(cfg fw.Config, rec *fw.Rec, i int) {
 		ordinary[mid] = true
 	}
 	service := map[string]bool{"captain": true, "timers": true}
+	if i%3 == 2 {
+		// a machine that leaves NaN in its bindings when it first sees a message (and then
+		// rests at the error node): its state cannot be serialised, which is the host's
+		// problem when it stores it - routing and reporting go on.  It records and emits
+		// nothing, so the model only needs to know that it exists.
+		src, err := siox.Inline(`{"name":"nan","nodes":{"start":{"branching":{"type":"message","branches":[{"pattern":"?m","target":"bad"}]}},"bad":{"action":{"interpreter":"ecmascript","source":"return {bad: 0/0};"},"branching":{"branches":[{"target":"start"}]}}}}`)
+		if err == nil {
+			err = c.SetMachine(ctx, "nanm", src, nil)
+		}
+		if err != nil {
+			rec.Inconclusive("NaN machine: " + err.Error())
+			return
+		}
+		service["nanm"] = true
+		rec.Bucket("sio_histories_with_a_machine_whose_state_cannot_be_serialised")
+	}
 	known := map[string]bool{}
 	for _, mid := range mids {
 		known[mid] = true
@@ -295,6 +311,9 @@ func sioHistory(cfg fw.Config, rec *fw.Rec, i int) {
 		}
 	}
 	g := &genCtx{r: r, mids: mids, dyn: i%2 == 1}
+	if service["nanm"] {
+		g.mids = append(append([]string{}, mids...), "nanm")
+	}
 	var history []interface{}
 	expectLog := map[string][]string{}
 	expectedSentinels := map[string]bool{}
@@ -461,7 +480,7 @@ func sioHistory(cfg fw.Config, rec *fw.Rec, i int) {
 func Run(cfg fw.Config, rec *fw.Rec) {
 	log.SetOutput(io.Discard)
 	rec.Rule = "crews (step limit 50, 3 or 2 - the last ends every recorder walk by the limit) of 0-6 recorder machines (ids incl. look-alikes of service names and the empty id) x histories of 1-5 submitted messages whose 'emit' fields script up to 3 generations of routed and unrouted follow-ups; targets: absent, an id, an unknown id, '*', lists with unknown / repeated / non-string members, the empty list, captain / timers; some messages carry crew-op or timer-request payloads that a wrongly addressed service machine would act on; in every second history crew operations addressed to the captain - submitted or emitted by recorders - hire, replace and fire recorders while messages to them are in flight (hire-then-talk, talk-then-hire, hire-talk-fire-talk within one emission batch), and the model's membership changes at the point of the breadth-first order where the captain is presented with the operation; the routing reference model replays Result.Emitted (breadth-first, per-machine emission order, every batch consumed exactly) and predicts every machine's log as a sequence; non-trivial = history with >= 2 deliveries; distinct by (machines, history)"
-	rec.Required = []string{"sio_messages_checked", "sio_histories_with_deliveries", "sio_empty_crew", "sio_machine_hired_during_processing", "sio_machine_fired_during_processing", "sio_delivery_to_machine_hired_in_this_history", "sio_histories_under_a_step_limit_that_ends_every_walk"}
+	rec.Required = []string{"sio_messages_checked", "sio_histories_with_deliveries", "sio_empty_crew", "sio_machine_hired_during_processing", "sio_machine_fired_during_processing", "sio_delivery_to_machine_hired_in_this_history", "sio_histories_under_a_step_limit_that_ends_every_walk", "sio_histories_with_a_machine_whose_state_cannot_be_serialised"}
 	rec.Assume = []string{"numbers / objects as routing targets are defined by neither code nor documentation and are recorded, not judged", "machine order within a round is unspecified: batches of one round are matched as a multiset and re-queued in the observed order"}
 	n := cfg.Pick(3000, 50000)
 	fw.Parallel(cfg.Workers, n, func(w, i int) { sioHistory(cfg, rec, i) })
